@@ -131,6 +131,12 @@ def gen_cases(tier, seed):
                     yield dict(entry="valid", prog=pi, fault=v, ctx=ci, fh=fhi)
                 for fault in FH_FAULTS + ["different"]:
                     yield dict(entry="horizon", prog=pi, fault=fault, ctx=ci, fh=fhi)
+                # a REJECTED horizon must leave no trace: the next call without a horizon is
+                # still a call with a missing horizon
+                for fault in FH_FAULTS:
+                    if fault != "missing":
+                        yield dict(entry="horizon", prog=pi, fault="then-missing:" + fault,
+                                   ctx=ci, fh=fhi)
     for ci in ctxs:
         for fhi in range(len(FHS)):
             for sp in ("sliding", "expanding", "single", "cutoff"):
@@ -140,6 +146,11 @@ def gen_cases(tier, seed):
                     for bi in range(len(BAD_INT)):
                         yield dict(entry="splitter", splitter=sp, which=which, bad=bi, ctx=ci,
                                    fh=fhi)
+                if sp in ("sliding", "expanding"):
+                    # the same two with start_with_window=False
+                    yield dict(entry="splitter", splitter=sp, which="toolong:sww0", ctx=ci, fh=fhi)
+                    yield dict(entry="splitter", splitter=sp, which="toolong1:sww0", ctx=ci,
+                               fh=fhi)
                 if sp != "cutoff":
                     yield dict(entry="splitter", splitter=sp, which="toolong", ctx=ci, fh=fhi)
                     # the shortest window that does not fit: n - max(fh) + 1
@@ -321,6 +332,31 @@ def _forecaster_cell(res, case, y, fh, nt):
         return
     # horizon faults
     key = "%s:horizon:%s" % (tag, fault)
+    if fault.startswith("then-missing:"):
+        if req:
+            return
+        bfh = _bad_fh(fault.split(":", 1)[1])
+
+        def seq(first_fh, at):
+            f = fmenu.build(spec)
+            if at == "predict":
+                f.fit(y.copy())
+                try:
+                    f.predict(first_fh)
+                except ALLOWED:
+                    pass
+            else:
+                try:
+                    f.fit(y.copy(), fh=first_fh)
+                except ALLOWED:
+                    f.fit(y.copy())
+            return f.predict()
+
+        for at in ("predict", "fit"):
+            good = call(seq, fh, at)  # a valid horizon IS remembered
+            bad = call(seq, bfh, at)
+            _judge(res, key + ":" + at, bad, good, None, nt + (at,))
+        return
     if fault == "different":
         if not req:
             return
@@ -369,7 +405,11 @@ def _splitter_cell(res, case, y, fh, nt):
     key = "splitter:%s:%s" % (kind, which)
 
     def run(fhv, W, s, yv):
-        return [(a.tolist(), b.tolist()) for a, b in _mk_splitter(kind, fhv, W, s, n).split(yv)]
+        cv = _mk_splitter(kind, fhv, W, s, n)
+        if which.endswith(":sww0"):
+            cv = type(cv)(fh=fhv, step_length=s, start_with_window=False,
+                          **({"window_length": W} if kind == "sliding" else {"initial_window": W}))
+        return [(a.tolist(), b.tolist()) for a, b in cv.split(yv)]
 
     good = call(run, fh, 3, 1, y)
     if which in ("initial_toolong", "initial_le_window"):
@@ -387,9 +427,9 @@ def _splitter_cell(res, case, y, fh, nt):
         b = BAD_INT[case["bad"]]
         key += ":%r" % (b,)
         bad = call(run, fh, b if which == "window" else 3, b if which == "step" else 1, y)
-    elif which == "toolong":
+    elif which in ("toolong", "toolong:sww0"):
         bad = call(run, fh, n + 2, 1, y)
-    elif which == "toolong1":
+    elif which in ("toolong1", "toolong1:sww0"):
         good = call(run, fh, n - max(fh), 1, y)  # the longest window that still fits
         bad = call(run, fh, n - max(fh) + 1, 1, y)
     elif which.startswith("fh:"):
